@@ -514,7 +514,10 @@ Proof.
 Qed.
 
 Lemma lockop_eqb_eq : forall a b, lockop_eqb a b = true -> a = b.
-Proof. intros [] []; cbn; intros; try discriminate; reflexivity. Qed.
+Proof.
+  intros [] []; cbn; intros; try discriminate; try reflexivity.
+  match goal with H : (_ =? _)%Z = true |- _ => apply Z.eqb_eq in H; subst end. reflexivity.
+Qed.
 
 Lemma oores_true : forall x, oores_eqb x (Some (OB true)) = true -> x = Some (OB true).
 Proof. intros [[[]| |]|]; cbn; intros; try discriminate; reflexivity. Qed.
@@ -848,3 +851,48 @@ Section Runs.
       + unfold status_after. rewrite fold_left_app. cbn [fold_left]. apply ghost_ev_other. auto.
   Qed.
 End Runs.
+
+(* ------------------------------------------------------------------ time passes *)
+(* a "time passes" step (operation OTick d of any client, at any point of any run, on ANY backend and
+   for any constants) issues the primitive PTick d, returns, and changes neither the store nor the
+   status of any lock *)
+Lemma ghost_ev_tick : forall g e d m, e_op e = OTick d -> ghost_ev g e m = g m.
+Proof.
+  intros g e d m H. unfold ghost_ev. rewrite H. cbn [ghost_upd]. unfold updg.
+  destruct (Nat.eqb m (e_n e)) eqn:E; auto. apply Nat.eqb_eq in E. now subst.
+Qed.
+
+Lemma tick_step : forall P b k c e d,
+  snd (sched_step P b k c) = Some e -> e_op e = OTick d ->
+  e_prim e = PTick d /\ e_resp e = RU /\ e_ret e = Some OU /\
+  (forall m, sh (fst (sched_step P b k c)) m = sh k m) /\
+  (forall m, gh (fst (sched_step P b k c)) m = gh k m).
+Proof.
+  intros P b k c e d He Ho. unfold sched_step in *.
+  destruct (pick (cls k c)) as [[[[o n] pc] rest]|]; [|discriminate He].
+  assert (Hop : o = OTick d).
+  { destruct (op_next P b o pc (snd (runp P (sh k) (op_prim P b o n pc)))); cbn in He; inversion He; subst e; exact Ho. }
+  subst o.
+  assert (Hp : op_prim P b (OTick d) n pc = PTick d) by (destruct b; reflexivity).
+  rewrite Hp in *. cbn [runp fst snd] in *.
+  assert (Hn : op_next P b (OTick d) pc RU = Done OU) by (destruct b; try reflexivity; destruct pc; reflexivity).
+  rewrite Hn in *. cbn [fst snd] in *. inversion He; subst e. cbn.
+  repeat split; auto.
+  intros m. unfold updg. destruct (Nat.eqb m n) eqn:E; auto. apply Nat.eqb_eq in E. now subst.
+Qed.
+
+Lemma status_after_snoc : forall tr e m, status_after (tr ++ [e]) m = ghost_ev (status_after tr) e m.
+Proof. intros. unfold status_after. rewrite fold_left_app. reflexivity. Qed.
+
+Theorem run_time_passes : forall P b hists s1 c e d,
+  let k := cfg_after P b hists s1 in
+  let k' := fst (sched_step P b k c) in
+  snd (sched_step P b k c) = Some e -> e_op e = OTick d ->
+  e_prim e = PTick d /\ e_ret e = Some OU /\
+  (forall m, sh k' m = sh k m) /\
+  (forall m, status_after (trace_of P b hists s1 ++ [e]) m = status_after (trace_of P b hists s1) m).
+Proof.
+  intros P b hists s1 c e d k k' He Ho.
+  destruct (tick_step P b k c e d He Ho) as (H1 & _ & H3 & H4 & _).
+  repeat split; auto. intros m. rewrite status_after_snoc. apply (ghost_ev_tick _ e d m Ho).
+Qed.
